@@ -61,12 +61,15 @@ def creator(kind):
 def create(kind, path, out, piece_length=None, progress=0, **kw):
     """Create a metafile with a creator class; returns raw bytes written."""
     cls, extra = creator(kind)
-    args = dict(path=path, outfile=out, progress=progress, **extra)
+    again = getattr(progress, "again", 0)
+    args = dict(path=path, outfile=out, progress=int(progress), **extra)
     if piece_length is not None:
         args["piece_length"] = piece_length
     args.update(kw)
     with quiet():
         obj = cls(**args)
+        for _ in range(again):
+            obj.assemble()          # assembling again starts over; it must not add to the result
         outfile, _ = obj.write()
     with open(outfile, "rb") as fd:
         return fd.read()
